@@ -45,7 +45,15 @@ def apply_edits(d, edits):
 def run_one(m):
     d = make_copy()
     try:
-        err = apply_edits(d, m["edits"])
+        err = None
+        if m.get("on"):
+            # the edit is made to a behaviour-preserving refactoring of the tree (seeded/refactors/<id>), not to the tree itself:
+            # the rules must still see the defect in the refactored code
+            pr = subprocess.run(["patch", "-p1", "-s", "-i", os.path.join(VERIF, "seeded", "refactors", m["on"], "patch.diff")],
+                                cwd=d, capture_output=True, text=True)
+            if pr.returncode != 0:
+                err = "refactoring %s does not apply" % m["on"]
+        err = err or apply_edits(d, m["edits"])
         if err:
             return m, "SKIP", err
         results = []
